@@ -41,13 +41,62 @@ theorem insertAt_seq (hI : Lawful I) (t : Tree T) (k : Nat) (v : V) (p : Nat) (h
     WFt I (insertAt I t k (I.new v) p) :=
   insertAt_spec I hI t k v p h
 
-/-- `remove_at(k)` returns the `k`-th element and leaves the sequence without it. -/
+/-- `remove_at(k)` returns the `k`-th element and leaves the sequence without it. **What is returned**
+    is an item and not only a value: it is the item of a one-node treap — stored size 1, stored
+    aggregate = the aggregate of its own element (`Singleton`), no pending modification — so the
+    caller can hand it to `insert_at` / `from_item` again (`insertItem_seq`, `fromItem_seq`, `moveAt_seq`). -/
 theorem removeAt_seq (hI : Lawful I) (t : Tree T) (k : Nat) (h : WFt I t) (hk : k < (seq I t).length) :
     (removeAt I t k).1.map I.own = .ok (seq I t)[k] ∧
-    seq I (removeAt I t k).2 = (seq I t).eraseIdx k ∧ WFt I (removeAt I t k).2 := by
+    seq I (removeAt I t k).2 = (seq I t).eraseIdx k ∧ WFt I (removeAt I t k).2 ∧
+    (∃ it, (removeAt I t k).1 = .ok it) ∧
+    ∀ it, (removeAt I t k).1 = .ok it → Singleton I it ∧ ∀ a, I.pa it a = a := by
   obtain ⟨h1, h2, h3⟩ := removeAt_spec I hI t k h
   rw [List.getElem?_eq_getElem hk] at h1 h2
-  exact ⟨h1, h2, h3⟩
+  exact ⟨h1, h2, h3, (removeAt_ok_iff I hI t k h).2 hk, fun it hr => removeAt_item I hI t k h it hr⟩
+
+/-- `insert_at(k, it)` for ANY item that stands for one element — a fresh `Item::new(v)`
+    (`Singleton_new`) or an item an earlier `remove_at` returned — whatever priority the node draws. -/
+theorem insertItem_seq (hI : Lawful I) (t : Tree T) (k : Nat) (it : T) (p : Nat) (h : WFt I t)
+    (hs : Singleton I it) :
+    seq I (insertAt I t k it p) = (seq I t).take k ++ I.own it :: (seq I t).drop k ∧
+    WFt I (insertAt I t k it p) :=
+  insertAt_item_spec I hI t k it p h hs
+
+/-- `Treap::from_item(it)` of such an item is the one-element sequence `[own it]` -/
+theorem fromItem_seq (hI : Lawful I) (it : T) (p : Nat) (hs : Singleton I it) :
+    seq I (single it p) = [I.own it] ∧ WFt I (single it p) :=
+  ⟨by simp [single, seq], (WFt_single_iff I hI it p).2 hs⟩
+
+/-- a fresh item is such an item -/
+theorem new_singleton (hI : Lawful I) (v : V) : Singleton I (I.new v) := Singleton_new I hI v
+
+/-- **moving an element**: `let it = t.remove_at(k); t.insert_at(j, it)` — the item the removal
+    returned is re-used as it is. The sequence loses position `k` and gets that element at `j`. -/
+theorem moveAt_seq (hI : Lawful I) (t : Tree T) (k j : Nat) (p : Nat) (h : WFt I t) (hk : k < (seq I t).length)
+    (it : T) (hr : (removeAt I t k).1 = .ok it) :
+    I.own it = (seq I t)[k] ∧
+    seq I (insertAt I (removeAt I t k).2 j it p) =
+      ((seq I t).eraseIdx k).take j ++ (seq I t)[k] :: ((seq I t).eraseIdx k).drop j ∧
+    WFt I (insertAt I (removeAt I t k).2 j it p) := by
+  obtain ⟨h1, h2, h3, _, h5⟩ := removeAt_seq I hI t k h hk
+  rw [hr] at h1
+  have hx : I.own it = (seq I t)[k] := by simpa [Except.map] using h1
+  obtain ⟨q1, q2⟩ := insertAt_item_spec I hI _ j it p h3 (h5 it hr).1
+  exact ⟨hx, by rw [q1, h2, hx], q2⟩
+
+/-- cloning the only element of a treap through `first()`, `last()` or `collect()[0]` and building
+    a treap from the clone gives the same one-element sequence (a clone of an INTERIOR node's item is
+    not a fresh item — it carries its subtree's size and aggregate — and is outside the property) -/
+theorem cloneOnly_seq (hI : Lawful I) (w : Nat) (t : Tree T) (h : WFt I t) (hc : (seq I t).length ≤ 1) (p : Nat) :
+    (pick I w t).1.map I.own = (if w = 1 then (seq I t).getLast? else (seq I t).head?) ∧
+    seq I (pick I w t).2 = seq I t ∧ WFt I (pick I w t).2 ∧
+    seq I (ofItem? (pick I w t).1 p) = seq I t ∧ WFt I (ofItem? (pick I w t).1 p) :=
+  pick_spec I hI w t h hc p
+
+/-- `collect_into` of one treap after the other into the same vector appends, pending tags applied -/
+theorem collectInto_seq (hI : Lawful I) (a b : Tree T) (ha : WFt I a) (hb : WFt I b) :
+    ((collect I a).1 ++ (collect I b).1).map I.own = seq I a ++ seq I b := by
+  rw [List.map_append, (collect_spec' I hI a ha).1, (collect_spec' I hI b hb).1]
 
 /-- past the end `remove_at` panics in `unwrap` and the treap still holds the whole sequence. -/
 theorem removeAt_past_end (hI : Lawful I) (t : Tree T) (k : Nat) (h : WFt I t) (hk : (seq I t).length ≤ k) :
@@ -157,6 +206,8 @@ theorem stated_in_domain (ops : List (Op E M V)) (ls : List (List E))
 
 theorem sumAdd_lawful : Lawful sumAdd := sumAdd_lawful'
 theorem affHash_lawful : Lawful affHash := affHash_lawful'
+/-- the item that relies on the default (empty) `update`/`push` of the trait, with its ghost size -/
+theorem keyOnly_lawful : Lawful keyOnly := keyOnly_lawful'
 
 /-! ### non-vacuity -/
 
@@ -187,6 +238,33 @@ example : runInDomB (G := Int × Int) affHash []
 example : (runS (G := Int × Int) affHash []
     [.item 1 7, .item 5 7, .merge 0 1, .tag 0 (1, 10), .splitBy 0 (fun e => e < 12), .tag 1 (0, 3),
      .merge 1 0, .collect 0]).map (·.1) = some [[3, 11]] := by decide
+
+-- re-use of returned items: move inside a treap, move between treaps, take out into a new treap, clone the
+-- only element, collect two treaps into one vector — in the stated domain, and what the lists become
+example : runStatedB (G := Int × Int) affHash []
+    [.item 1 7, .item 5 7, .item 9 2, .merge 0 1, .merge 0 1, .tag 0 (-1, 0), .moveAt 0 0 0 2 4, .takeAt 0 1 9,
+     .moveAt 0 0 1 1 3, .dup 0 1 6, .collect2 1 0] = true := by decide
+
+example : (runS (G := Int × Int) affHash []
+    [.item 1 7, .item 5 7, .item 9 2, .merge 0 1, .merge 0 1, .tag 0 (-1, 0), .moveAt 0 0 0 2 4, .takeAt 0 1 9,
+     .moveAt 0 0 1 1 3, .dup 0 1 6, .collect2 1 0]).map (·.1) = some [[-1], [-9, -5], [-1]] := by decide
+
+-- `removeAt_seq`'s hypotheses are satisfiable and what it returns exists: a two-node treap with a pending tag
+example : ∃ it, (removeAt affHash (tagRoot affHash (1, 4) (merge affHash (single (affHash.new 3) 5) (single (affHash.new 8) 2))) 1).1
+    = .ok it ∧ Singleton affHash it ∧ affHash.own it = 12 := by
+  have w := WFt_single affHash affHash_lawful
+  have hm := merge_seq affHash affHash_lawful _ _ (w 3 5) (w 8 2)
+  have ht := tagRoot_seq affHash affHash_lawful (1, 4) _ hm.2
+  have hs : seq affHash (tagRoot affHash (1, 4) (merge affHash (single (affHash.new 3) 5) (single (affHash.new 8) 2))) = [7, 12] := by
+    rw [ht.1, hm.1]; decide
+  have hk : 1 < (seq affHash (tagRoot affHash (1, 4) (merge affHash (single (affHash.new 3) 5) (single (affHash.new 8) 2)))).length := by
+    rw [hs]; decide
+  obtain ⟨h1, _, _, ⟨it, hit⟩, h5⟩ := removeAt_seq affHash affHash_lawful _ 1 ht.2 hk
+  refine ⟨it, hit, (h5 it hit).1, ?_⟩
+  rw [hit] at h1
+  have : affHash.own it = (seq affHash (tagRoot affHash (1, 4) (merge affHash (single (affHash.new 3) 5) (single (affHash.new 8) 2))))[1] := by
+    simpa [Except.map] using h1
+  rw [this]; simp [hs]
 
 -- a predicate that is not prefix-monotone is outside the domain (and is reported as `any`)
 example : prefixMonoB (fun e : Int => e < 2) [1, 5, 0] = false := by decide
